@@ -104,6 +104,17 @@ pub fn check_v1_1_0(sc0: &Sc, leg: &Legacy, acc: &mut Acc) -> Vec<String> {
             return vec![e];
         }
     }
+    // every third store has the staker configured in the all-upper-case spelling bech32 allows
+    if (leg.packets.len() + leg.replies.len()) % 3 == 1 {
+        let st = &mut sc.w.contracts.get_mut(&q).unwrap().store;
+        if let Some(mut c) = st.m.get(&b"config".to_vec()).and_then(|v| serde_json::from_slice::<Value>(v).ok()) {
+            if let Some(a) = c.get("native_chain_config").and_then(|n| n.get("staker_address")).and_then(|x| x.as_str()).map(|x| x.to_uppercase()) {
+                c["native_chain_config"]["staker_address"] = json!(a);
+                st.m.insert(b"config".to_vec(), c.to_string().into_bytes());
+                acc.count("c18:upper_case_staker");
+            }
+        }
+    }
     let before = sc.w.store_of(&q).clone();
     // the staker configured at the time of the upgrade (the history may have changed it)
     let staker = sc.qy(json!({"config": {}})).ok().and_then(|c| c.get("native_chain_config").map(|n| vs(n, "staker_address"))).unwrap_or_else(|| sc.staker.clone());
@@ -342,7 +353,7 @@ pub fn check_old_paths(sc0: &Sc, rng: &mut Rng, acc: &mut Acc) -> Vec<String> {
 /// stored version x stored name x message variant => success iff name matches and version is the path's source
 pub fn check_gate(sc0: &Sc, acc: &mut Acc) -> Vec<String> {
     let mut out = vec![];
-    let versions = ["0.4.18", "0.4.20", "1.0.0", "1.0.1", "1.1.0", "1.2.0", "2.0.0", "0.9.9", "garbage", ""];
+    let versions = ["0.4.18", "0.4.20", "1.0.0", "1.0.1", "1.1.0", "1.2.0", "2.0.0", "0.9.9", "garbage", "", "1.0.0+build.7", "1.1.0+hotfix.1", "0.4.20+x"];
     let names = ["staking", "treasury", "crates.io:staking", "other"];
     let msgs: [(Value, &str); 3] = [
         (json!({"v0_4_18_to_v0_4_20": {"send_fees_to_treasury": true}}), "0.4.18"),
@@ -397,13 +408,15 @@ pub fn check_gate(sc0: &Sc, acc: &mut Acc) -> Vec<String> {
             None => String::new(),
         };
         let tv = parse_semver(&target);
-        for ver in ["0.1.0", "0.4.18", "0.4.19", "0.4.20", "0.4.21", "1.0.0", "garbage", ""] {
+        // (build metadata does not make a version newer or older: the same core version is not "strictly newer")
+        let with_build = format!("{target}+hotfix.1");
+        for ver in ["0.1.0", "0.4.18", "0.4.19", "0.4.20", "0.4.21", "1.0.0", "garbage", "", with_build.as_str()] {
             for name in ["treasury", "staking", "other"] {
                 let mut sc = sc0.clone();
                 set_version(&mut sc.w, t, name, ver);
                 let before = sc.w.store_of(t).clone();
                 let r = sc.w.migrate(t, "{}");
-                let want = name == "treasury" && matches!((parse_semver(ver), tv), (Some(a), Some(b)) if a < b);
+                let want = name == "treasury" && !ver.contains('+') && matches!((parse_semver(ver), tv), (Some(a), Some(b)) if a < b);
                 acc.seen("C18", &format!("tgate|{ver}|{name}|{}", r.ok));
                 if !r.panics.is_empty() {
                     out.push(format!("treasury migrate from {name} {ver} panicked: {:?}", r.panics));
